@@ -172,3 +172,27 @@ def run_mode(ctx, mode):
         ctx.sample({"file": c["file"], "cfg": c["cfg"], "out": c["out"], "gsi": c["gsi"]})
     ctx.assumptions += ["the tagged graph is spec/data/sort_graph.json (two chromosomes, bubbles with reference and non-reference alleles, one untagged node with BO=NO=-1)",
                         "walks never mix reference nodes of two contigs (sort asserts this)"]
+
+
+def tlaps_order_lemmas(ctx):
+    """TLAPS: the order on sort keys is a strict total order on records with distinct input positions (spec/tlaps/SortOrder.tla)"""
+    import re
+    import shutil
+    import subprocess
+    import time
+
+    exe = shutil.which("tlapm")
+    if not exe:
+        ctx.notes["tlaps"] = "tlapm not found; lemmas skipped"
+        return
+    d = os.path.join(ctx.scratch, "tlaps")
+    os.makedirs(d, exist_ok=True)
+    shutil.copy(os.path.join(SPEC, "tlaps", "SortOrder.tla"), d)
+    t0 = time.time()
+    p = subprocess.run([exe, "SortOrder.tla"], cwd=d, capture_output=True, text=True, timeout=600)
+    out = p.stdout + p.stderr
+    m = re.search(r"All (\d+) obligations? proved", out)
+    ctx.notes["tlaps_lemmas"] = {"module": "spec/tlaps/SortOrder.tla", "theorems": ["Irreflexive", "Transitive", "Asymmetric", "TotalOnDistinctPositions"],
+                                 "obligations_proved": int(m.group(1)) if m else 0, "wall_s": round(time.time() - t0, 1)}
+    if not m:
+        ctx.violation("design:SortOrder:tlaps_obligation_failed", {"tlapm": out[-1500:]})
